@@ -43,7 +43,8 @@ type Transition struct {
 }
 
 type Audit struct {
-	Kind       string // "atomic"
+	Kind       string   // "atomic" | "initonly"
+	Names      []string // initonly: package-level variables and Type.field names
 	TypeName   string
 	Field      string
 	Props      []string
@@ -230,6 +231,111 @@ func constInt(v ssa.Value) (int64, bool) {
 	}
 }
 
+// runInitOnly: `audit initonly g1, T.f`: no function of the package other than the package initialiser stores to
+// the listed package-level variables or struct fields, updates / deletes from a map loaded from one of the
+// variables, or lets a variable's address or the map it holds escape (to a call, a store, a closure). One
+// obligation per listed name: true when no such site exists, false (with the first site in its text) otherwise.
+func (p *Program) runInitOnly(ar *auditRef, all map[*ssa.Function]bool) (obls []*Obligation, errs []string) {
+	a := ar.a
+	var fns []*ssa.Function
+	for fn := range all {
+		if len(fn.Blocks) > 0 && fnTypesPkg(fn) == ar.pkg.Pkg && fn.Synthetic != "package initializer" {
+			fns = append(fns, fn)
+		}
+	}
+	sort.Slice(fns, func(i, j int) bool { return fns[i].String() < fns[j].String() })
+	for _, name := range a.Names {
+		name = strings.TrimSpace(name)
+		var bad []string
+		if tf := strings.SplitN(name, ".", 2); len(tf) == 2 {
+			// a struct field: stores through a FieldAddr of that field, or the field's address escaping
+			obj, _ := ar.pkg.Pkg.Scope().Lookup(tf[0]).(*types.TypeName)
+			if obj == nil {
+				errs = append(errs, fmt.Sprintf("%s:%d: audit initonly: type %s not found", a.File, a.Line, tf[0]))
+				continue
+			}
+			for _, fn := range fns {
+				for _, b := range fn.Blocks {
+					for _, in := range b.Instrs {
+						fa, ok := in.(*ssa.FieldAddr)
+						if !ok {
+							continue
+						}
+						pt, ok := fa.X.Type().Underlying().(*types.Pointer)
+						if !ok || !types.Identical(pt.Elem(), obj.Type()) {
+							continue
+						}
+						st := obj.Type().Underlying().(*types.Struct)
+						if st.Field(fa.Field).Name() != tf[1] {
+							continue
+						}
+						for _, r := range *fa.Referrers() {
+							switch r := r.(type) {
+							case *ssa.UnOp, *ssa.DebugRef:
+							case *ssa.Store:
+								bad = append(bad, fmt.Sprintf("%s stores to %s at %s", qualName(fn), name, p.prog.Fset.Position(r.Pos())))
+							default:
+								bad = append(bad, fmt.Sprintf("%s lets &%s escape at %s", qualName(fn), name, p.prog.Fset.Position(r.Pos())))
+							}
+						}
+					}
+				}
+			}
+		} else {
+			g, _ := ar.pkg.Members[name].(*ssa.Global)
+			if g == nil {
+				errs = append(errs, fmt.Sprintf("%s:%d: audit initonly: no package-level variable %s", a.File, a.Line, name))
+				continue
+			}
+			for _, fn := range fns {
+				for _, b := range fn.Blocks {
+					for _, in := range b.Instrs {
+						for _, op := range in.Operands(nil) {
+							if *op != ssa.Value(g) {
+								continue
+							}
+							switch r := in.(type) {
+							case *ssa.DebugRef:
+							case *ssa.UnOp:
+								// a load: what is loaded must not be mutated or escape when it is a map
+								if _, isMap := r.Type().Underlying().(*types.Map); isMap {
+									for _, rr := range *r.Referrers() {
+										switch rr := rr.(type) {
+										case *ssa.Lookup, *ssa.DebugRef, *ssa.Range:
+										case *ssa.Call:
+											if bi, ok := rr.Call.Value.(*ssa.Builtin); ok && bi.Name() == "len" {
+												continue
+											}
+											bad = append(bad, fmt.Sprintf("%s passes the map %s to a call at %s", qualName(fn), name, p.prog.Fset.Position(rr.Pos())))
+										default:
+											bad = append(bad, fmt.Sprintf("%s updates or leaks the map %s at %s", qualName(fn), name, p.prog.Fset.Position(rr.Pos())))
+										}
+									}
+								}
+							case *ssa.Store:
+								if r.Addr == ssa.Value(g) {
+									bad = append(bad, fmt.Sprintf("%s stores to %s at %s", qualName(fn), name, p.prog.Fset.Position(r.Pos())))
+								} else {
+									bad = append(bad, fmt.Sprintf("%s stores &%s at %s", qualName(fn), name, p.prog.Fset.Position(r.Pos())))
+								}
+							default:
+								bad = append(bad, fmt.Sprintf("%s lets &%s escape at %s", qualName(fn), name, p.prog.Fset.Position(in.Pos())))
+							}
+						}
+					}
+				}
+			}
+		}
+		c := NewCtx(ModeInt, p.specs)
+		goal, text := "true", fmt.Sprintf("%s is written by the package initialiser only (%d functions scanned)", name, len(fns))
+		if len(bad) > 0 {
+			goal, text = "false", text+": "+bad[0]
+		}
+		obls = append(obls, &Obligation{Name: fmt.Sprintf("%s/initonly %s#0", ar.pkg.Pkg.Name(), name), Fn: ar.pkg.Pkg.Name() + ".init", Kind: "initonly " + name, Text: text, Props: a.Props, ctx: c, pos: 0, pc: "true", goal: goal})
+	}
+	return obls, errs
+}
+
 // runAudits: the package-wide scan. Returns syntactic obligations (goal true/false) and errors.
 func (p *Program) runAudits(prop string) (obls []*Obligation, errs []string) {
 	if len(p.audits) == 0 {
@@ -239,6 +345,11 @@ func (p *Program) runAudits(prop string) (obls []*Obligation, errs []string) {
 	for _, ar := range p.audits {
 		a := ar.a
 		if prop != "" && !contains(a.Props, prop) {
+			continue
+		}
+		if a.Kind == "initonly" {
+			o, es := p.runInitOnly(ar, all)
+			obls, errs = append(obls, o...), append(errs, es...)
 			continue
 		}
 		obj, _ := ar.pkg.Pkg.Scope().Lookup(a.TypeName).(*types.TypeName)
